@@ -177,7 +177,7 @@ pub fn check(c: &Case) -> CheckResult {
         .class_if(m.frames.is_empty(), "no-frames"))
 }
 
-fn strategy() -> impl Strategy<Value = Case> {
+pub fn strategy() -> impl Strategy<Value = Case> {
     (fx::model(), fx::layout(), fx::layout(), any::<u32>()).prop_map(|(model, layout, layout2, absent_id)| Case { model, layout, layout2, absent_id })
 }
 
